@@ -26,6 +26,7 @@ import spyne.interface
 
 from spyne import EventManager, MethodDescriptor
 from spyne.util import six
+from spyne.util.oset import oset
 from spyne.model import ModelBase, Array, Iterable, ComplexModelBase
 from spyne.model.complex import XmlModifier
 from spyne.const import xml as namespace
@@ -121,7 +122,9 @@ class Interface(object):
 
         self.nsmap['tns'] = self.get_tns()
         self.prefmap[self.get_tns()] = 'tns'
-        self.deps = defaultdict(set)
+        # an ordered set, so that documents are generated in the same order
+        # in every process
+        self.deps = defaultdict(oset)
 
     def has_class(self, cls):
         """Returns true if the given class is already included in the interface
